@@ -176,4 +176,7 @@ def translated : List String := ["updatePool_guard_1(height,pool_LastHeightDistr
 /-- every rejecting guard of the translated functions, in source order -/
 def guards : List String := ["updatePool: height < pool.LastHeightDistrRewards", "updatePool: len(rules) == 0", "updatePool: rules[i].RemainingReward.LT(rewardCollected)", "updatePool: err := k.bk.SendCoinsFromModuleToModule(ctx, types.ModuleName, types.RewardCollector, rewardTotal); err != nil", "AdjustPool: !exist", "AdjustPool: !pool.Editable", "AdjustPool: creator.String() != pool.Creator", "AdjustPool: k.Expired(ctx, pool)", "AdjustPool: rewardPerBlock != nil && !rewardPerBlock.DenomsSubsetOf(rules.RewardsPerBlock())", "AdjustPool: reward != nil && !rules.Contains(reward)", "AdjustPool: pool, _, err = k.updatePool(ctx, pool, math.ZeroInt(), false); err != nil", "AdjustPool: err := k.bk.SendCoinsFromAccountToModule(ctx, creator, types.ModuleName, reward); err != nil", "Keeper.Stake: !exist", "Keeper.Stake: pool.StartHeight > ctx.BlockHeight()", "Keeper.Stake: k.Expired(ctx, pool)", "Keeper.Stake: lpToken.Denom != pool.TotalLptLocked.Denom", "Keeper.Stake: err := k.bk.SendCoinsFromAccountToModule(ctx, sender, types.ModuleName, sdk.NewCoins(lpToken)); err != nil", "Keeper.Stake: pool, _, err = k.updatePool(ctx, pool, lpToken.Amount, false); err != nil", "Keeper.Stake: err = k.bk.SendCoinsFromModuleToAccount(ctx, types.RewardCollector, sender, rewards); err != nil", "Keeper.Unstake: !exist", "Keeper.Unstake: lpToken.Denom != pool.TotalLptLocked.Denom", "Keeper.Unstake: !exist", "Keeper.Unstake: farmInfo.Locked.LT(lpToken.Amount)", "Keeper.Unstake: pool.TotalLptLocked.Amount.LT(lpToken.Amount)", "Keeper.Unstake: pool, _, err = k.updatePool(ctx, pool, lpToken.Amount.Neg(), false); err != nil", "Keeper.Unstake: err = k.bk.SendCoinsFromModuleToAccount(ctx, types.ModuleName, sender, sdk.NewCoins(lpToken)); err != nil", "Keeper.Unstake: err = k.bk.SendCoinsFromModuleToAccount(ctx, types.RewardCollector, sender, rewards); err != nil", "Keeper.Harvest: !exist", "Keeper.Harvest: k.Expired(ctx, pool)", "Keeper.Harvest: !exist", "Keeper.Harvest: pool, _, err := k.updatePool(ctx, pool, amtAdded, false); err != nil", "Keeper.Harvest: err = k.bk.SendCoinsFromModuleToAccount(ctx, types.RewardCollector, sender, rewards); err != nil", "Keeper.Refund: pool, _, err := k.updatePool(ctx, pool, math.ZeroInt(), true); err != nil", "Keeper.Refund: creator, err := sdk.AccAddressFromBech32(pool.Creator); err != nil", "Keeper.Refund: !refundTotal.IsAllPositive()", "Keeper.Refund: distrModuleAddr.Equals(creator)", "Keeper.Refund: err := k.bk.SendCoinsFromModuleToAccount(ctx, types.ModuleName, creator, refundTotal); err != nil", "Keeper.CreatePool: err := k.DeductPoolCreationFee(ctx, creator); err != nil", "Keeper.CreatePool: err := k.bk.SendCoinsFromAccountToModule(ctx, creator, types.ModuleName, totalReward); err != nil", "Keeper.DestroyPool: !exist", "Keeper.DestroyPool: creator.String() != pool.Creator", "Keeper.DestroyPool: !pool.Editable", "Keeper.DestroyPool: k.Expired(ctx, pool)", "Keeper.createPool: endHeight, err := pool.ExpiredHeight(); err != nil", "msgServer.CreatePool: creator, err := sdk.AccAddressFromBech32(msg.Creator); err != nil", "msgServer.CreatePool: ctx.BlockHeight() > msg.StartHeight", "msgServer.CreatePool: maxRewardCategories := m.k.MaxRewardCategories(ctx); uint32( len(msg.TotalReward), ) > maxRewardCategories", "msgServer.CreatePool: err := m.k.ck.ValidatePool(ctx, msg.LptDenom); err != nil", "msgServer.CreatePool: pool, err := m.k.CreatePool( ctx, msg.Description, msg.LptDenom, msg.StartHeight, msg.RewardPerBlock.Sort(), msg.TotalReward.Sort(), msg.Editable, creator, ); err != nil", "msgServer.CreatePoolWithCommunityPool: proposer, err := sdk.AccAddressFromBech32(msg.Proposer); err != nil", "msgServer.CreatePoolWithCommunityPool: uint32(len(totalReward)) > maxRewardCategories", "msgServer.CreatePoolWithCommunityPool: err := m.k.ck.ValidatePool(ctx, msg.Content.LptDenom); err != nil", "msgServer.CreatePoolWithCommunityPool: err := m.k.bk.SendCoinsFromAccountToModule(ctx, proposer, types.EscrowCollector, msg.Content.FundSelfBond); err != nil", "msgServer.CreatePoolWithCommunityPool: err := m.k.escrowFromFeePool(ctx, msg.Content.FundApplied); err != nil", "msgServer.CreatePoolWithCommunityPool: data, err := codectypes.NewAnyWithValue(&msg.Content); err != nil", "msgServer.CreatePoolWithCommunityPool: proposal, err := m.k.gk.SubmitProposal( ctx, msgs, \"\", msg.Content.Title, msg.Content.Description, proposer, false, ); err != nil", "msgServer.CreatePoolWithCommunityPool: _, err = m.k.gk.AddDeposit(ctx, proposal.Id, proposer, msg.InitialDeposit); err != nil", "msgServer.DestroyPool: creator, err := sdk.AccAddressFromBech32(msg.Creator); err != nil", "msgServer.DestroyPool: refundCoin, err := m.k.DestroyPool(ctx, msg.PoolId, creator); err != nil", "msgServer.AdjustPool: creator, err := sdk.AccAddressFromBech32(msg.Creator); err != nil", "msgServer.AdjustPool: err = m.k.AdjustPool( ctx, msg.PoolId, msg.AdditionalReward, msg.RewardPerBlock, creator, ); err != nil", "msgServer.Stake: sender, err := sdk.AccAddressFromBech32(msg.Sender); err != nil", "msgServer.Stake: reward, err := m.k.Stake(ctx, msg.PoolId, msg.Amount, sender); err != nil", "msgServer.Unstake: sender, err := sdk.AccAddressFromBech32(msg.Sender); err != nil", "msgServer.Unstake: reward, err := m.k.Unstake(ctx, msg.PoolId, msg.Amount, sender); err != nil", "msgServer.Harvest: sender, err := sdk.AccAddressFromBech32(msg.Sender); err != nil", "msgServer.Harvest: reward, err := m.k.Harvest(ctx, msg.PoolId, sender); err != nil"]
 
+/-- every statement of the translated functions executed for its effect, with its nesting depth, in source order -/
+def effects : List String := ["updatePool: d2 rules[i].RewardPerShare = rules[i].RewardPerShare.Add(newRewardPerShare)", "updatePool: d2 rules[i].RemainingReward = rules[i].RemainingReward.Sub(rewardCollected)", "updatePool: d2 k.SetRewardRule(ctx, pool.Id, rules[i])", "updatePool: d0 pool.TotalLptLocked = sdk.NewCoin( pool.TotalLptLocked.Denom, pool.TotalLptLocked.Amount.Add(amount), )", "updatePool: d0 pool.LastHeightDistrRewards = ctx.BlockHeight()", "updatePool: d1 pool.EndHeight = ctx.BlockHeight()", "updatePool: d2 pool.StartHeight = pool.EndHeight", "updatePool: d0 pool.Rules = rules", "updatePool: d0 k.SetPool(ctx, pool)", "AdjustPool: d0 pool.Rules = k.GetRewardRules(ctx, pool.Id)", "AdjustPool: d2 rules[i].TotalReward = rules[i].TotalReward.Add(reward.AmountOf(rules[i].Reward))", "AdjustPool: d2 rules[i].RemainingReward = rules[i].RemainingReward.Add(reward.AmountOf(rules[i].Reward))", "AdjustPool: d0 pool.Rules = rules.UpdateWith(rewardPerBlock)", "AdjustPool: d0 k.SetRewardRules(ctx, pool.Id, pool.Rules)", "AdjustPool: d0 k.DequeueActivePool(ctx, pool.Id, pool.EndHeight)", "AdjustPool: d0 pool.EndHeight = expiredHeight", "AdjustPool: d0 k.SetPool(ctx, pool)", "AdjustPool: d0 k.EnqueueActivePool(ctx, pool.Id, pool.EndHeight)", "EndBlocker: d0 k.IteratorExpiredPool(ctx, ctx.BlockHeight(), func(pool types.FarmPool) { logger.Info( \"The farm pool has expired, refund to creator\", \"poolId\", pool.Id, \"endHeight\", pool.EndHeight, \"lastHeightDistrRewards\", pool.LastHeightDistrRewards, \"totalLptLocked\", pool.TotalLptLocked, \"creator\", pool.Creator, ) if _, err := k.Refund(ctx, pool); err != nil { logger.Error(\"The farm pool refund failed\", \"poolId\", pool.Id, \"creator\", pool.Creator, \"errMsg\", err.Error(), ) } })", "EndBlocker: d1 logger.Info( \"The farm pool has expired, refund to creator\", \"poolId\", pool.Id, \"endHeight\", pool.EndHeight, \"lastHeightDistrRewards\", pool.LastHeightDistrRewards, \"totalLptLocked\", pool.TotalLptLocked, \"creator\", pool.Creator, )", "EndBlocker: d2 logger.Error(\"The farm pool refund failed\", \"poolId\", pool.Id, \"creator\", pool.Creator, \"errMsg\", err.Error(), )", "Keeper.Stake: d0 farmInfo.RewardDebt = rewardDebt", "Keeper.Stake: d0 farmInfo.Locked = farmInfo.Locked.Add(lpToken.Amount)", "Keeper.Stake: d0 k.SetFarmInfo(ctx, farmInfo)", "Keeper.Unstake: d1 pool.Rules = k.GetRewardRules(ctx, pool.Id)", "Keeper.Unstake: d1 pool.TotalLptLocked = pool.TotalLptLocked.Sub(lpToken)", "Keeper.Unstake: d1 k.SetPool(ctx, pool)", "Keeper.Unstake: d0 farmInfo.RewardDebt = rewardDebt", "Keeper.Unstake: d0 farmInfo.Locked = farmInfo.Locked.Sub(lpToken.Amount)", "Keeper.Unstake: d1 k.DeleteFarmInfo(ctx, poolId, sender.String())", "Keeper.Unstake: d0 k.SetFarmInfo(ctx, farmInfo)", "Keeper.Harvest: d0 farmInfo.RewardDebt = rewardDebt", "Keeper.Harvest: d0 k.SetFarmInfo(ctx, farmInfo)", "Keeper.Refund: d0 k.DequeueActivePool(ctx, pool.Id, pool.EndHeight)", "Keeper.Refund: d1 r.RemainingReward = math.ZeroInt()", "Keeper.Refund: d1 k.SetRewardRule(ctx, pool.Id, r)", "Keeper.createPool: d1 k.SetRewardRule(ctx, pool.Id, rewardRule)", "Keeper.createPool: d1 pool.Rules = append(pool.Rules, rewardRule)", "Keeper.createPool: d0 pool.EndHeight = endHeight", "Keeper.createPool: d0 k.SetPool(ctx, pool)", "Keeper.createPool: d0 k.EnqueueActivePool(ctx, pool.Id, pool.EndHeight)", "msgServer.CreatePoolWithCommunityPool: d0 m.k.SetEscrowInfo(ctx, types.EscrowInfo{ Proposer: msg.Proposer, FundApplied: msg.Content.FundApplied, FundSelfBond: msg.Content.FundSelfBond, ProposalId: proposal.Id, })"]
+
 end Irismod.Gen.PureFarm
